@@ -189,3 +189,73 @@ def _swd_random(rng, ncases):
 
 Unit("C15", "select_window_degen[random NB<=8]", concrete=_swd_random,
      bounded_desc="random clustered sorted energies, NB <= 8, random windows, both include_degen settings")
+
+
+# ------------------------------------------------------------------ Tabulator.__call__ : per-group averaging
+def _tab_unit(ibands, kramers):
+    @unit("C15", "Tabulator.__call__[ibands=%s,Kramers=%s]" % (ibands, kramers), scope="shape:2 k-points, 4 bands, two block layouts", expect_min=3)
+    def _t(U):
+        import numpy as rnp
+        from pyvc.npshim import Shim, sym_real_array
+        import z3
+        FTB = "wannierberri/calculators/tabulate.py"
+        made = []
+
+        class KB:
+            def __init__(self, data, **kw):
+                made.append((data, kw))
+        f = U.fn(FTB, "Tabulator.__call__", globs=dict(np=Shim(), KBandResult=KB), model=False)
+
+        def body():
+            del made[:]
+            layouts = [[{(0, 2): 0.0, (2, 4): 1.0}, {(0, 1): 0.0, (1, 3): 0.5, (3, 4): 1.0}], [{(0, 4): 0.0}, {(0, 1): 0., (1, 2): .1, (2, 3): .2, (3, 4): .3}]]
+            groups = layouts[ctx().choose(2, "block layout")]
+            asked = {}
+            data = types_ns(nk=2, num_wann=4)
+
+            def gb(emin, emax, degen_thresh=-1, degen_Kramers=False, sea=False, Emin=-rnp.inf, Emax=rnp.inf, select_bands=None):
+                asked.update(emin=emin, emax=emax, degen_thresh=degen_thresh, degen_Kramers=degen_Kramers, sea=sea)       # the real signature
+                return [dict(g) for g in groups]
+            data.get_bands_in_range_groups = gb
+
+            class Formula:
+                ndim = 1
+                transformTR, transformInv = "TR", "INV"
+
+                def __init__(self, d, **kw):
+                    pass
+
+                def trace(self, ik, inn, out):
+                    a, b = int(inn[0]), int(inn[-1]) + 1
+                    ok = sorted(list(inn) + list(out)) == list(range(4))
+                    return sym_real_array("tr_%d_%d_%d%s" % (ik, a, b, "" if ok else "_BAD"), (3,))
+            me = types_ns(Formula=Formula, kwargs_formula={}, ibands=None if ibands is None else rnp.array(ibands), degen_thresh=0.01, degen_Kramers=kramers, constant_factor=2.0)
+            f(me, data)
+            U.ensure("groups are requested for all energies with the calculator's own threshold and Kramers setting (not as a Fermi-sea request)",
+                     asked.get("degen_thresh") == 0.01 and asked.get("degen_Kramers") == kramers and asked.get("sea") is False and asked["emin"] == -rnp.inf and asked["emax"] == rnp.inf)
+            rs, kw = made[0]
+            ib = list(range(4)) if ibands is None else list(ibands)
+            ok = tuple(rs.shape) == (2, len(ib), 3)
+            if ok:
+                for ik in range(2):
+                    for j, b in enumerate(ib):
+                        (g0, g1) = [g for g in groups[ik] if g[0] <= b < g[1]][0]
+                        for c in range(3):
+                            want = sreal("tr_%d_%d_%d_%d" % (ik, g0, g1, c)) * 2.0 / (g1 - g0)
+                            s = z3.Solver()
+                            s.add(z3.Not((lift(rs[ik, j, c]) == want).t))
+                            ok = ok and s.check() == z3.unsat
+            U.ensure("value of band b = factor * trace over the block containing b / block size (so equal inside a block); trace gets the block as inner and all other bands as outer states", ok)
+            U.ensure("declared transformations come from the formula", kw.get("transformTR") == "TR" and kw.get("transformInv") == "INV")
+        U.run(body, check_feasible=False)
+
+
+class types_ns:
+    def __init__(self, **kw):
+        self.__dict__.update(kw)
+
+
+_tab_unit(None, False)
+_tab_unit(None, True)
+_tab_unit([1, 3], True)
+_tab_unit([0, 2, 3], False)
